@@ -123,6 +123,10 @@ def read_graph(graph_raw) -> nx.DiGraph:
         if not math.isfinite(w) or "_" in w_str:
             utils.logger.error(f"{__name__}: Invalid weight value in edge: {line.rstrip()}")
             raise ValueError(f"Invalid weight value in edge: {line.rstrip()}")
+        if G.has_edge(u.strip(), v.strip()):
+            # A second line for the same pair would silently replace the weight of the first one
+            utils.logger.error(f"{__name__}: Duplicate edge line: {line.rstrip()}")
+            raise ValueError(f"Duplicate edge line: {line.rstrip()}")
         G.add_edge(u.strip(), v.strip(), flow=w)
 
     # Validate that every constraint edge exists in the graph
